@@ -159,3 +159,19 @@ Proof.
   - inversion L; auto.
   - unfold lookup in L. simpl in L. destruct w; discriminate.
 Qed.
+
+(** hypotheses of C15_response_eq_sync: a joint run exists (the plan without asynchronous fields:
+    the root future is ready at once, no idle round); the coupling theorems of IdleJoint.v say that
+    the joint system's steps are forced for plans with Go/Batch fields *)
+From ApiFu Require Idle.IdleJointRun Fut.Plan Fut.Future Fut.AsyncWrap.
+Example ex_jrun_exists :
+  exists resp, IdleJointRun.JRun ex2_prog current [] 3 [] resp.
+Proof.
+  unfold IdleJointRun.JRun.
+  destruct (ExecAsync.exec_sel ExecAsync.fixed_flags [] [] ExecAsync.st0) as [f st0'] eqn:E.
+  vm_compute in E. inversion E; subst f st0'; clear E.
+  eexists. exists (Future.Ready (Plan.ROk (Plan.GMap 0))). eexists. exists [], init. eexists. eexists.
+  split; [intros sigma fuel; destruct fuel; reflexivity|].
+  split; [reflexivity|]. split; [reflexivity|]. split; [apply IdleJointRun.JL_ready|].
+  vm_compute. reflexivity.
+Qed.
